@@ -263,6 +263,7 @@ fn run_e1_property(id: &str, thorough: bool, ev: &mut Evidence, t0: Instant) {
             families::fd(2, 4, vec![(0, 0), (6, 0), (0, 4), (6, 4)], 4, "the 4 corners"),
             families::fd(4, 2, vec![(0, 0), (4, 0), (0, 6), (4, 6)], 4, "the 4 corners"),
         ];
+        dense.push(families::f4border());
         if thorough {
             dense.push(families::fd(3, 3, vec![(0, 0), (5, 0), (0, 5), (5, 5)], 4, "the 4 corners"));
             dense.push(families::fd(2, 4, vec![(3, 0), (3, 4), (0, 2), (6, 2)], 4, "edge middles"));
